@@ -46,6 +46,10 @@ func checkC19(c *Ctx) {
 	ruleMatcherFreshVerdict(c, "C19.e")
 	c.rule("C19.f", "SEARCH parser: conjunct lists only grow; no element is modified in place", 1)
 	ruleNoInPlaceCriteriaEdit(c, "C19.f")
+	c.rule("C19.g", "every element of a list criterion can reject the message on its own (early loop exits lead to rejection, in the matcher or through its helpers)", 7)
+	ruleListElementsReject(c, "C19.g")
+	c.rule("C19.h", "a per-round verdict that a loop overwrites is branched on before the next round", 1)
+	ruleOverwrittenVerdict(c, "C19.h", "imapserver/imapmemserver")
 }
 
 // ruleConjunctiveMatcher: (*imapmemserver.message).search must be a
